@@ -831,7 +831,12 @@ Theorem update_wrapper_refines_strong f inj exp :
   wf_func f -> Forall (fun nd => fst nd <> 0) exp ->
   match update_wrapper f inj exp, spec_wraps (func_sig f) inj exp with
   | Ok g, Ok s =>
-      sig_of (b_func g) = Ok s /      f_name (b_func g) = f_name f /\ f_doc (b_func g) = f_doc f /      f_module (b_func g) = f_module f /\ f_async (b_func g) = f_async f /      b_wrapped_is_func g = true /      b_inv g = inv_of_params (sg_params s) /      exists b2, good b2 /\ s = fb_sig b2
+      sig_of (b_func g) = Ok s /\
+      f_name (b_func g) = f_name f /\ f_doc (b_func g) = f_doc f /\
+      f_module (b_func g) = f_module f /\ f_async (b_func g) = f_async f /\
+      b_wrapped_is_func g = true /\
+      b_inv g = inv_of_params (sg_params s) /\
+      exists b2, good b2 /\ s = fb_sig b2
   | Raise e, Raise _ => e = ValueError \/ e = SyntaxErr
   | _, _ => False
   end.
